@@ -172,15 +172,27 @@ Theorem c14_fitted_rows :
 Proof. intros C config_of s. exact (fitted_rows_spec config_of s). Qed.
 Print Assumptions c14_fitted_rows.
 
-(* Late reports: in ANY state, a report of a trial that is not running (already stopped, paused, failed or completed)
-   stores nothing and registers no pending evaluation; the scheduler repeats its earlier decision, and the
-   on_trial_remove the tuner issues for it leaves the searcher state unchanged. (Histories with late reports are
-   not part of [legal_hist]: the tuner does not poll such trials; the driver issues them and compares.) *)
+(* Late reports. [Late t r v] -- a report of a trial that is not running (already stopped, paused, failed or completed),
+   followed by the tuner's on_trial_remove -- is an event of [legal_hist]: ALL theorems above hold for histories
+   with late reports placed anywhere (they are not deliveries: [first_reports] does not count them). In addition, in
+   ANY state such a report stores nothing, registers no pending evaluation and repeats the earlier decision. *)
 Theorem c14_late_report_ignored :
   forall cfg st t r v cont rec, find t (trials st) = Some rec -> dec rec <> CONTINUE ->
     on_trial_result cfg st t r v cont = Ok (st, dec rec) /\ srch (on_trial_remove st t) = srch st.
 Proof. exact late_report_ignored. Qed.
 Print Assumptions c14_late_report_ignored.
+
+Example c14_late_example :
+  (* trial 0 is stopped at level 1, trial 1 fails; both send late reports; nothing changes in the searcher state *)
+  let cfg := {| rung_levels := [1; 3]; max_t := 9; pol := AllData; myopic := true; sty := Stopping; maximize := false; reward_const := 1 |} in
+  let h := [Start 0 0%nat; Start 1 0%nat; Report 0 1 (1 # 2) true; Report 1 1 (3 # 4) false; Fail 0;
+            Late 1 2 (1 # 8); Late 0 2 (1 # 16); Late 0 3 (1 # 32)] in
+  legal_hist cfg init h /\
+  match run cfg init h with
+  | Ok st => map fst (obs (srch st)) = [(0, 1); (1, 1)] /\ pend (srch st) = [] /\ failed (srch st) = [0]
+  | Error _ => False
+  end.
+Proof. vm_compute. repeat split; reflexivity. Qed.
 
 (* non-vacuity of the fitted-data theorems: keep the first [cap] observations; two trials with the same configuration *)
 Example c14_fitted_example :
